@@ -1,4 +1,5 @@
 import VlsModel.Model.Sweep
+import VlsModel.Lemmas.Sweep
 /-
 C09 — Sweep and second-level HTLC signatures only move funds back to the node.
 
@@ -254,6 +255,57 @@ theorem C09_htlc (pol : HtlcPolicy) (ct : CommitmentType) (toSelfDelay : Nat) (t
                 · intro hf hro
                   have := h2 hf (by simp [hro])
                   simpa [hro] using this
+
+/-- **C09 (HTLC, field by field)**: the signed transaction has version 2, locktime 0 unless the HTLC is offered,
+    its first input has sequence 1 (zero-fee anchors) or 0, its first output pays the revokeable script of the
+    negotiated delay and keys (ids 0/0) exactly `amount − feerate·weight/1000` (`amount` for zero-fee channels)
+    with the feerate in the policy range, and without anchors (SIGHASH_ALL) there is nothing else in it. -/
+theorem C09_htlc_fields (pol : HtlcPolicy) (ct : CommitmentType) (toSelfDelay : Nat) (tx : HtlcTx)
+    (redeem : RedeemKind) (amountSat : Nat) (h : signHtlcTx pol ct toSelfDelay tx redeem amountSat = .ok) :
+    tx.version = 2 ∧ (redeem ≠ .offered → tx.locktime = 0) ∧
+    ∃ in0 out0 feerate, tx.ins.head? = some in0 ∧ tx.outs.head? = some out0 ∧
+      in0.sequence = (if ct.isZeroFee then 1 else 0) ∧
+      out0.script = .revokeable 0 toSelfDelay 0 ∧
+      out0.value + htlcFee ct (redeem == .offered) feerate = amountSat ∧
+      (ct.isZeroFee = true → feerate = 0) ∧
+      (pol.fltFeeRange = true → feerate ≤ pol.maxFeerate ∧ (ct.isZeroFee = false → pol.minFeerate ≤ feerate)) ∧
+      (ct.isAnchors = false → tx.ins = [in0] ∧ tx.outs = [out0]) := by
+  obtain ⟨_, in0, feerate, rtx, hin, hrec, hb, hz, hfr, _⟩ := C09_htlc pol ct toSelfDelay tx redeem amountSat h
+  obtain ⟨hfee, hrtx⟩ := recompose_some _ _ _ _ _ _ _ _ _ _ _ hrec
+  have hro : redeem ≠ .offered → (redeem == RedeemKind.offered) = false := by
+    intro hr; cases redeem <;> simp_all
+  have rv : rtx.version = 2 := by rw [hrtx]
+  have rl : rtx.locktime = if (redeem == RedeemKind.offered) = true then
+      (if (redeem == RedeemKind.offered) = true then tx.locktime else 0) else 0 := by rw [hrtx]
+  have ri : rtx.ins = [({ txid := in0.txid, vout := in0.vout, sequence := if ct.isZeroFee then 1 else 0 } : TxIn)] := by
+    rw [hrtx]
+  have ro : rtx.outs = [TxOut.mk (amountSat - htlcFee ct (redeem == .offered) feerate)
+      (.revokeable 0 toSelfDelay 0)] := by rw [hrtx]
+  have hcore : tx.version = rtx.version ∧ tx.locktime = rtx.locktime ∧ tx.ins.head? = rtx.ins.head? ∧
+      tx.outs.head? = rtx.outs.head? ∧ (ct.isAnchors = false → tx = rtx) := by
+    unfold IsBolt3 at hb
+    cases ha : ct.isAnchors with
+    | true => simp only [ha, if_true] at hb; exact ⟨hb.1, hb.2.1, hb.2.2.1, hb.2.2.2, by intro hc; cases hc⟩
+    | false =>
+      have hb' : tx = rtx := by simpa [ha] using hb
+      exact ⟨by rw [hb'], by rw [hb'], by rw [hb'], by rw [hb'], fun _ => hb'⟩
+  obtain ⟨hv, hl, hi, ho, hall⟩ := hcore
+  rw [rv] at hv
+  rw [rl] at hl
+  rw [ri, hin] at hi
+  rw [ro] at ho
+  simp only [List.head?_cons] at hi ho
+  have hX := Option.some.inj hi
+  have hseq := congrArg TxIn.sequence hX
+  simp only at hseq
+  refine ⟨hv, ?_, in0, _, feerate, hin, ho, hseq, rfl, ?_, hz, hfr, ?_⟩
+  · intro hr; simpa [hro hr] using hl
+  · simp only; omega
+  · intro ha
+    have ht := hall ha
+    refine ⟨?_, ?_⟩
+    · rw [ht, ri]; exact congrArg (fun x => [x]) hX.symm
+    · rw [ht, ro]
 
 /-! ### Non-vacuity -/
 
